@@ -268,8 +268,11 @@ func ToDate(ctx *expr.Context, input system.Collection, args ...expr.Expression)
 	case system.Date:
 		return system.Collection{value}, nil
 	case system.DateTime:
-		dt := value.String()
-		result := system.MustParseDate(dt[:10])
+		dt, _, _ := strings.Cut(value.String(), "T") // the date part may be shorter than YYYY-MM-DD
+		result, err := system.ParseDate(dt)
+		if err != nil {
+			return system.Collection{}, nil
+		}
 		return system.Collection{result}, nil
 	case system.String:
 		result, err := system.ParseDate(string(value))
